@@ -733,7 +733,8 @@ fn dcsim(input: &[V]) -> Vec<V> {
 //   kind 3  the worker transmits an ACK (on_transmit); the control packet is decoded and checked
 //   kind 4  the application reads up to (a mod 4000) + 1 bytes
 // output: [ops executed,
-//          then per packet op (kinds 0..2): expected_duplicate, code (0 accepted, 1 Duplicate, 2 other error)
+//          then per packet op (kinds 0..2): expected_duplicate (2 = the stream had already received everything:
+//          no demand), code (0 accepted, 1 Duplicate, 2 other error)
 //          as pairs, then -1,
 //          read, correct, dup_changed_state, acks_subset, acked_count, max_data_monotone, eof, total]
 mod recv_driver {
@@ -910,6 +911,13 @@ mod recv_driver {
                             continue;
                         }
                         built[(a as usize) % built.len()].clone()
+                    } else if let Some(prev) = {
+                        // a sender uses a packet number once: asking again for a number already built
+                        // replays that packet
+                        let pn = if kind == 1 { a % 48 + 1 } else { a % 48 };
+                        built.iter().find(|w| w.0 == kind as u8 && w.1 == pn).cloned()
+                    } {
+                        prev
                     } else {
                         // recovery-space numbers are 1..=48: a retransmission must be numbered above its original (0)
                         let pn = if kind == 1 { a % 48 + 1 } else { a % 48 };
@@ -955,7 +963,9 @@ mod recv_driver {
                     };
                     let (space, pn, mut bytes) = wire;
                     let expected_dup = accepted[space as usize].contains(&pn);
-                    let before = (reasm.len(), reasm.total_received_len(), accepted.clone());
+                    // once everything has arrived the receiver ignores packets wholesale (Ok): no demand then
+                    let receiving = matches!(format!("{:?}", state.state()).as_str(), "Recv" | "SizeKnown");
+                    let before = (reasm.len(), reasm.total_received_len(), state.should_transmit());
                     let res = {
                         let (mut p, _) = stream::decoder::Packet::decode(DecoderBufferMut::new(&mut bytes), (), 16).expect("decode");
                         state.on_stream_packet(
@@ -983,10 +993,13 @@ mod recv_driver {
                     if code == 0 {
                         accepted[space as usize].insert(pn);
                     }
+                    // a replayed packet must leave the receiver as it was: same buffered bytes, no new ACK wanted
+                    // (a replay legitimately makes the receiver want to re-send its ACK)
+                    let _ = before.2;
                     if expected_dup && (before.0 != reasm.len() || before.1 != reasm.total_received_len()) {
                         dup_changed = true;
                     }
-                    pairs.push(expected_dup as V);
+                    pairs.push(if receiving { expected_dup as V } else { 2 });
                     pairs.push(code);
                 }
                 3 => {
@@ -1179,7 +1192,7 @@ fn main() {
             if i >= lines.len() {
                 break;
             }
-            let r = run_in_child(&exe, &name, &lines[i]);
+            let r = if name == "dcsim" { run_in_child(&exe, &name, &lines[i]) } else { run_line(f, &lines[i]) };
             results.lock().unwrap()[i] = Some(r);
         }));
     }
